@@ -4,6 +4,7 @@ and its own scratch worktree -- nothing from /verif)."""
 import json, sys
 pid = sys.argv[1]
 rnd = sys.argv[2] if len(sys.argv) > 2 else ''
+extra = ' At least one of the two changes must NOT be in the function most obviously responsible for the property: put it in a helper, constructor, cache, converter or shared utility that the property depends on indirectly (another module is fine), so that only this property -- not the helper\'s own direct tests -- notices.' if rnd >= 'r4' else ''
 wt, out = '/tmp/mut/wt_' + pid + rnd, '/tmp/mut/out_' + pid + rnd
 p = next(json.loads(l) for l in open('/verif/properties.jsonl') if json.loads(l)['id'] == pid)
 print(f"""You are helping to test a verification effort by writing realistic bugs. You work ONLY inside the scratch git worktree {wt} (a checkout of the Python library DallasTrinkle/Onsager: transport coefficients for interstitial and vacancy-mediated diffusion via crystal symmetry and lattice Green functions) and write your deliverables to {out}/. Do NOT read or touch /repo or /verif, and do not use anything outside the worktree except the Python interpreter.
@@ -21,7 +22,7 @@ The property (a semantic guarantee users rely on):
 YOUR TASK: produce TWO different, independent changes (mutations) to the library source under {wt}/onsager/ (not to the tests) such that, for each change separately:
   1. the library still imports, and every existing test in test/ that passed before still passes (run at least every test file that imports or exercises the module(s) you touch; ideally all of them);
   2. the change BREAKS the property above — there is some input / sequence of operations for which the property is false with the change and true without it;
-  3. the change is realistic: the kind of slip a maintainer could make in a refactor or "optimisation" (off-by-one, wrong index or sign in a rarely taken branch, a dropped copy or normalisation, a stale cache, a swapped argument, a boundary comparison, an early exit), a few lines, not sabotage that is obvious at a glance, NOT a plain revert of one of the repository's recent commits (do not consult git log for ideas), and NOT something that ordinary use exposes at once. Prefer changes that need something specific to manifest: an unusual but valid input (low symmetry crystal, 2D, several Wyckoff sets, several solutes, a vacancy, an empty list...), a particular multi-step sequence of operations, or two cooperating sites that each look fine alone.
+  3. the change is realistic: the kind of slip a maintainer could make in a refactor or "optimisation" (off-by-one, wrong index or sign in a rarely taken branch, a dropped copy or normalisation, a stale cache, a swapped argument, a boundary comparison, an early exit), a few lines, not sabotage that is obvious at a glance, NOT a plain revert of one of the repository's recent commits (do not consult git log for ideas), and NOT something that ordinary use exposes at once. Prefer changes that need something specific to manifest: an unusual but valid input (low symmetry crystal, 2D, several Wyckoff sets, several solutes, a vacancy, an empty list...), a particular multi-step sequence of operations, or two cooperating sites that each look fine alone.{extra}
   4. you provide a demonstration: a small standalone program that exits 0 and prints PASS on the unmodified worktree, and exits 1 and prints FAIL with the change applied. It should check the property directly (not compare against stored numbers), and run in under 2 minutes.
 
 Work method: read the relevant source first. Make change 1, run tests + demo, save `git diff > {out}/patch1.diff`, then `git checkout -- .` and confirm demo passes again; repeat for change 2 (`patch2.diff`, `demo2.py`; demos may be the same file if it catches both). Deliverables in {out}/: patch1.diff, demo1.py, patch2.diff, demo2.py, and notes.md saying for each change: what it breaks, what is needed for it to manifest, which test files you ran with the change applied and their result. Never use `git stash` (the stash is shared with other worktrees of the same repository); use `git diff > file` and `git checkout -- .` only. Leave the worktree clean (git checkout -- .) at the end. Your final message should summarise the two changes in a few lines each.""")
